@@ -153,7 +153,7 @@ def build_lib(name, lib_src, dep_line, extra=""):
     if os.path.exists(root):
         shutil.rmtree(root)
     os.makedirs(os.path.join(root, "src"))
-    shutil.copy(os.path.join(R.REPO, "Cargo.lock"), os.path.join(root, "Cargo.lock"))
+    shutil.copy(R.lockfile(), os.path.join(root, "Cargo.lock"))
     with open(os.path.join(root, "Cargo.toml"), "w") as f:
         f.write('[package]\nname = "%s"\nversion = "0.0.0"\nedition = "2021"\n[workspace]\n[lib]\n[dependencies]\n%s\n%s' % (name, dep_line, extra))
     with open(os.path.join(root, "src", "lib.rs"), "w") as f:
